@@ -332,11 +332,13 @@ TrBuilderBuild ==
     /\ UNCHANGED <<prog, pv, stage, ep, doc, dec, ran, res, origin>>
 
 (* ---- generated code panicked while the harness was driving it (the panic is data, not a tool failure) ---- *)
-PropOfPanic(w) == CASE w = "encode" -> "C01" [] w = "schemas" -> "C16" [] w = "multitest" -> "C12" [] OTHER -> "C10"
+PropOfPanic(w) == CASE w = "encode" -> "C01" [] w = "schemas" -> "C16" [] w = "multitest" -> "C12" [] w = "call" -> "C03" [] OTHER -> "C10"
 TrPanic ==
     /\ IsEvent("Panic")
     /\ Chk(PropOfPanic(E.where), "generated_code_does_not_panic", l, FALSE)
-    /\ UNCHANGED <<prog, pv, stage, ep, doc, dec, ran, res, origin, fx>>
+    \* a call that panicked never returns: the delivery is over
+    /\ IF E.where = "call" THEN stage' = "returned" /\ res' = "err" ELSE UNCHANGED <<stage, res>>
+    /\ UNCHANGED <<prog, pv, ep, doc, dec, ran, origin, fx>>
 
 TStep == TrPanic \/ TrBuilderNew \/ TrBuilderSet \/ TrBuilderBuild \/ TrBuild \/ TrSchemas \/ TrRemoteMsg \/ TrRemoteQueryReturn \/ TrReset \/ TrLists \/ TrEncode \/ TrDeliver \/ TrWrapperDecode \/ TrStructDecode
          \/ TrSilentDecode \/ TrOverrideHandler \/ TrHandler \/ TrReturn
